@@ -11,5 +11,6 @@ mkdir -p "$V/seeded/$NAME"
 cp "$WT/demo.py" "$V/seeded/$NAME/demo.py"; cp "$WT/NOTES.md" "$V/seeded/$NAME/NOTES.md" 2>/dev/null
 sh "$V/harness/confirm_seed.sh" "$WT" "$V/seeded/$NAME/confirm.json" | tail -12
 echo "--- check against the change:"
-sh "$V/harness/try_seed.sh" "$V/seeded/$NAME/patch.diff" "$ID" quick
+LID=$(echo "$ID" | tr 'A-Z' 'a-z')
+if [ -f "$V/harness/props/$LID.py" ]; then sh "$V/harness/try_seed.sh" "$V/seeded/$NAME/patch.diff" "$ID" quick; else echo "(check $ID not built yet: stored only)"; fi
 git -C /repo worktree remove --force "$WT" && echo "worktree removed"
